@@ -7,7 +7,7 @@ from .c13 import rule_exit_status
 from .localpool import FINAL, LOCAL, explore_task, scheduler_info, witness
 
 
-def run(ctx):
+def _run_structural(ctx):
     fi, sem, outs, steps = explore_task(ctx)
     construct = f"{fi.module.relpath}::{fi.qual}"
     starts = [e for e in sem.events if e[0] == "start"]
@@ -71,3 +71,23 @@ def run(ctx):
 
     r3 = ctx.rule("R3", "a dependency counts as completed only if its process exited with status 0")
     rule_exit_status(ctx, r3, fi, sem, outs)
+
+
+def run(ctx):
+    """Structural rules first; the task coroutine evaluated under fault and cancellation injection decides where they do not recognise the shape."""
+    from ..loader import AnalysisError
+    from .evalhelpers import cached_witness, task_coroutine_witness, cancel_task_witness
+    wit = cached_witness(ctx, "task", task_coroutine_witness)
+    n0 = len(ctx.rules)
+    try:
+        _run_structural(ctx)
+    except (AnalysisError, Exception) as exc:
+        if wit[2] is not None:
+            raise  # neither the structural rules nor the evaluation can follow this code
+        r0 = ctx.rule("R0", "the structural rules cannot follow this shape of the task coroutine; decided by evaluation under fault and cancellation injection")
+        r0.info("src/gwf/backends/local.py::Scheduler.try_handle_task", f"structural analysis stopped: {type(exc).__name__}: {str(exc)[:120]}")
+        for r in ctx.rules[n0:]:
+            r.min_instances = 0
+    rules = ctx.rules[n0:]
+    pred = lambda c: any(k in c for k in ("try_handle_task", "_gentle_kill", "create_subprocess", "kill"))
+    ctx.reconcile(rules, pred, wit, "src/gwf/backends/local.py::Scheduler.try_handle_task", "src/gwf/backends/local.py:1")
